@@ -69,6 +69,15 @@ func main() {
 		}
 		fmt.Println("not reproduced")
 		os.Exit(0)
+	case "replica":
+		if len(os.Args) < 4 {
+			usage()
+		}
+		only := -1
+		if len(os.Args) > 4 {
+			only, _ = strconv.Atoi(os.Args[4])
+		}
+		os.Exit(props.ReplicaMain(os.Args[2], os.Args[3], only))
 	case "list":
 		var ids []string
 		for id := range props.Registry {
